@@ -159,6 +159,7 @@ Proof.
   - (* VVis2 *) split; auto. now destruct (st d), (st s).
   - (* VCmp *) split; auto. destruct (vcmp_model (st d) (st s)) as (E1 & E2 & E3). rewrite E1, E2, E3.
     now destruct (vcmp (st d) (st s)).
+  - (* VSelf *) split; auto.
 Qed.
 
 Lemma spec_vrun_ok ops : forall st l, VRel st l -> spec_vrun l ops (vrun st ops) = [].
